@@ -2,7 +2,7 @@
 import re
 from ..facts import callee_of, short, sp_file_line, expr_str, expr_walk, place_is_local
 from .. import tables
-from .. import kit, dbg
+from .. import kit, dbg, formula
 from ..effects import Effects
 from ..linear import lin, show, same
 
@@ -371,7 +371,11 @@ def run(ctx):
     ISID = "lace::lexer::is_id"
     LBL = "lace::debugger::command::parse::label::"
     ctx.fn(ISID)
-    idset = tables.char_pred_set(prog, ISID)
+    try:
+        idset = tables.char_pred_set(prog, ISID)
+    except (formula.Unknown, formula.Overflow, formula.NotATree) as ex_:
+        idset = set()
+        ctx.need(False, "the lexer's identifier predicate in a form that can be evaluated character by character (%s: %s)" % (type(ex_).__name__, ex_))
     ctx.need(len(idset) == 63, "lexer identifier alphabet (a-z A-Z 0-9 _): %d characters" % len(idset))
     for nm_, want, what in ((LBL + "can_contain", idset, "label continuation"), (LBL + "can_start_with", {c for c in idset if not (48 <= c <= 57)}, "label start")):
         ctx.fn(nm_)
